@@ -6,6 +6,8 @@ mod prim;
 mod pipeline;
 mod c04;
 mod c05;
+mod c06;
+mod tables;
 mod c08;
 mod c08_blocks;
 mod c11;
@@ -31,8 +33,10 @@ fn main() {
     }
     common::install_panic_hook();
     let code = common::with_big_stack(move || match cmd.as_str() {
+        | "dump-tables" => tables::dump(&opts.out, &opts.rest),
         | "c04" => c04::run(&opts),
         | "c05" => c05::run(&opts),
+        | "c06" => c06::run(&opts),
         | "c08" => c08::run(&opts),
         | "c11" => c11::run(&opts),
         | other => {
